@@ -21,7 +21,20 @@
                      with what the stream records while the calls run (HWrote per accepted poll_write,
                      HStreamClosed, HDropped)
      HPollClose s  : `poll_close` is called until it returns `Ready(None)`; same interleaving
-   The stream a handler still holds when the op list ends is not reported as dropped. *)
+   The stream a handler still holds when the op list ends is not reported as dropped.
+
+   ConnHandler glue (lib.rs:332-405), not modelled as code of its own, only as the meaning of the ops:
+     on_behaviour_event(SendWantlist w)                         = HSendWantlist w
+     on_connection_event(FullyNegotiatedOutbound, Client)       = HSetStream
+     on_connection_event(DialUpgradeError, Client)              = HAllocFailed
+     connection_keep_alive()                                    = keep_alive
+     poll_close() until Ready(None)                             = HPollClose
+     poll(): incoming streams first, then client_handler.poll, then (only if that is Pending)
+       server_handler.poll.  HPoll is client_handler.poll alone; it coincides with ConnHandler::poll
+       until Pending whenever the other two sources are idle (no inbound stream, server half with
+       nothing pending and no stream: it then returns Pending without any stream call).  Otherwise each
+       Ready event of the server half is followed by a fresh client_handler.poll, i.e. by further calls
+       on the client's stream; that interleaving is not modelled. *)
 From BS Require Export Types FramedWrite.
 
 Inductive hop :=
